@@ -70,7 +70,7 @@ SeqSet(s) == {s[i] : i \in DOMAIN s}
 \*       incn     - <<ep,sid>> -> incarnation counter (open/accept events)
 MiscInit == [probe |-> [e \in EP |-> -1], thr |-> <<>>, cbs |-> <<>>, ackDue |-> [e \in EP |-> -1],
              incn |-> <<>>, fwdMax |-> [e \in EP |-> -1],
-             nack |-> [line |-> 0, to |-> -1, set |-> {}, hb |-> FALSE], teardown |-> FALSE, shutAt |-> <<>>, shutRet |-> <<>>, txn |-> [e \in EP |-> 0]]
+             nack |-> [line |-> 0, to |-> -1, set |-> {}, hb |-> FALSE], teardown |-> FALSE, shutAt |-> <<>>, shutRet |-> <<>>, closedInc |-> <<>>, txn |-> [e \in EP |-> 0]]
 
 InitVars ==
   /\ scen = "" /\ cfg = [none |-> TRUE]
@@ -139,6 +139,8 @@ TrWrite ==
                 THEN (k :> SelectSeq(Get(order, k, <<>>), LAMBDA x : x # E.id)) @@ order
                 ELSE order
   /\ viol' = viol \cup WriteViol(E)
+              \cup (IF E.ok /\ Get(misc.closedInc, <<E.ep, E.sid>>, 0) >= msg[E.id].inc /\ msg[E.id].inc > 0
+                    THEN {V("C18_WriteOnClosedStreamRejected", <<E.ep, E.sid, E.id>>)} ELSE {})
               \cup (IF E.ok /\ E.ep \in DOMAIN misc.shutAt /\ msg[E.id].callLine > misc.shutAt[E.ep]
                     THEN {V("C08_WriteAfterShutdownRejected", <<E.ep, E.sid, E.id>>)} ELSE {})
               \cup (IF ~E.ok /\ \E t \in DOMAIN ch[E.ep] : ch[E.ep][t].id = E.id
@@ -167,7 +169,15 @@ ReadViol(e) ==
       earlierReliableMissing == {i \in DOMAIN sent : i < pos /\ sent[i] \notin prevIds
                                    /\ ~msg[sent[i]].unord /\ (msg[sent[i]].rtype = 0 \/ msg[sent[i]].ppi = 50)}
   IN
-  IF ~e.ok THEN {}
+  IF ~e.ok THEN
+    \* C14: end-of-file only after the writer closed this incarnation, and only after every message it wrote
+    (IF e.err = "eof" /\ ~misc.teardown
+     THEN LET rinc == Get(misc.incn, k, 0)
+              owed == {id \in DOMAIN msg : msg[id].ep = Peer(e.ep) /\ msg[id].sid = e.sid /\ msg[id].ok /\ msg[id].len > 0
+                                           /\ msg[id].inc = rinc /\ (msg[id].rtype = 0 \/ msg[id].ppi = 50) /\ id \notin prevIds}
+          IN (IF Get(misc.closedInc, sk, 0) < rinc THEN {V("C14_EofOnlyAfterClose", <<e.ep, e.sid, rinc>>)} ELSE {})
+             \cup (IF owed # {} THEN {V("C14_EofAfterAllData", <<e.ep, e.sid, CHOOSE id \in owed : TRUE>>)} ELSE {})
+     ELSE {})
   ELSE
     (IF e.id = 0 THEN {V("C06_Genuine", <<e.ep, e.sid, e.len, e.ppi>>)} ELSE {})
     \cup (IF e.id # 0 /\ (~known \/ pos = 0) THEN {V("C06_Genuine", <<e.ep, e.sid, e.id>>)} ELSE {})
@@ -265,6 +275,14 @@ DataViol(c) ==
     \cup (IF isNew /\ ~c.il /\ c.fi > 0 /\ ((c.tsn - 1) \notin DOMAIN ch[e] \/ prevC.id # c.id \/ prevC.fi # c.fi - 1)
           THEN {V("C17_ConsecutiveTSN", <<e, c.tsn, c.id, c.fi>>)} ELSE {})
     \cup (IF c.il /\ c.fsn # c.fi THEN {V("C17_FsnOrder", <<e, c.tsn, c.id, c.fi, c.fsn>>)} ELSE {})
+    \* sequence numbers: the n-th ordered (resp. unordered, with interleaving) message of an incarnation
+    \* carries SSN / MID n-1 -- in particular a reopened identifier starts again at 0 (C14)
+    \cup (IF known /\ isNew /\ c.b /\ (c.il \/ ~c.u) /\ m.ok
+          THEN LET same == {id \in DOMAIN msg : msg[id].ep = e /\ msg[id].sid = c.sid /\ msg[id].inc = m.inc /\ msg[id].ok /\ msg[id].len > 0
+                                                /\ msg[id].unord = m.unord /\ msg[id].callLine < m.callLine}
+                   seq == IF c.il THEN c.mid ELSE c.ssn
+               IN IF seq # Cardinality(same) THEN {V("C14_SequenceNumber", <<e, c.sid, c.id, seq, Cardinality(same), m.inc>>)} ELSE {}
+          ELSE {})
     \cup (IF known /\ m.rtype = 1 /\ m.ppi # 50 /\ ntx > m.rval + 1 THEN {V("C06_RexmitCap", <<e, c.tsn, c.id, ntx, m.rval, IF m.len > c.len THEN "fragmented" ELSE "whole">>)} ELSE {})
     \cup (IF known /\ m.rtype = 2 /\ m.ppi # 50 /\ late > 1 THEN {V("C06_Lifetime", <<e, c.tsn, c.id, late, m.rval, IF m.len > c.len THEN "fragmented" ELSE "whole">>)} ELSE {})
 
@@ -533,12 +551,13 @@ SnapViol(s, R) ==
     \cup {V("C07_Cursor", <<e, x.sid, IF Get(R, <<e, x.sid>>, ReasmInit).il THEN x.rmid ELSE x.rssn, Get(R, <<e, x.sid>>, ReasmInit).next>>) :
              x \in {y \in regStrs : <<e, y.sid>> \in DOMAIN R /\ (IF R[<<e, y.sid>>].il THEN y.rmid ELSE y.rssn) # R[<<e, y.sid>>].next}}
     \* C15: per-stream buffered amount = accepted writes - bytes acknowledged (or skipped and acknowledged)
-    \cup {V("C15_StreamExact", <<e, x.sid, x.ba, WrittenBytes(e, x.sid), ReleasedBytes(e, x.sid)>>) :
+    \cup {V("C15_StreamExact", <<e, x.sid, x.ba, WrittenBytes(e, x.sid), ReleasedBytes(e, x.sid), IF x.reg THEN "registered" ELSE "unregistered">>) :
              x \in {y \in strs : y.known /\ y.ba # WrittenBytes(e, y.sid) - ReleasedBytes(e, y.sid)}}
     \cup (IF s.abuf # AllWritten(e) - AllReleased(e) /\ s.st # "closed" THEN {V("C15_AssocExact", <<e, s.abuf, AllWritten(e), AllReleased(e)>>)} ELSE {})
     \* C15: one callback per downward crossing of the threshold, none otherwise
     \cup {V("C15_Callback", <<e, x.sid, Get(misc.cbs, <<e, x.sid>>, 0), x.ba>>) :
              x \in {y \in strs : y.known /\ <<e, y.sid>> \in DOMAIN misc.thr /\ prev # NoSnap
+                      /\ ~(step.ev = "api" /\ step.op \in {"open", "accept"})
                       /\ LET py == {z \in {prev.streams[i] : i \in DOMAIN prev.streams} : z.sid = y.sid /\ z.known}
                              th == misc.thr[<<e, y.sid>>]
                              crossed == py # {} /\ (CHOOSE z \in py : TRUE).ba > th /\ y.ba <= th
@@ -641,6 +660,7 @@ TrApi ==
                [] E.op \in {"shutdown-call", "close-call", "abort-call", "connfail"} ->
                     [misc EXCEPT !.teardown = TRUE, !.shutAt = IF E.op = "shutdown-call" THEN Upd(@, E.ep, l) ELSE @]
                [] E.op = "shutdown-ret" -> [misc EXCEPT !.shutRet = Upd(@, E.ep, E.ok)]
+               [] E.op = "closestream" /\ E.ok -> [misc EXCEPT !.closedInc = Upd(@, <<E.ep, E.sid>>, Get(misc.incn, <<E.ep, E.sid>>, 0))]
                [] OTHER -> misc
   /\ viol' = viol \cup AckLate(E.t) \cup ApiViol(E)
   /\ step' = E
@@ -700,6 +720,9 @@ ExpectViol(x) ==
     \cup {V("C07_LaterDelivered", <<msg[id].ep, msg[id].sid, id, msg[id].len>>) : id \in prMissing}
     \cup UNION {{V("C02_BufferedZero", <<e, y.sid, y.ba>>) : y \in {z \in {sn[e].streams[i] : i \in DOMAIN sn[e].streams} : z.known /\ z.ba # 0}}
                 : e \in {q \in EP : sn[q] # NoSnap}}
+    \cup {V("C14_EofDelivered", <<k[1], k[2]>>) :
+             k \in {q \in DOMAIN misc.closedInc : "reset" \in DOMAIN x /\ Get(misc.incn, <<Peer(q[1]), q[2]>>, 0) > 0 /\ ~\E i \in DOMAIN Get(reads, <<Peer(q[1]), q[2]>>, <<>>) :
+                                                       reads[<<Peer(q[1]), q[2]>>][i].err = "eof"}}
     \cup {V("C02_AssocBufferedZero", <<e, sn[e].abuf>>) : e \in {q \in EP : sn[q] # NoSnap /\ sn[q].abuf # 0 /\ sn[q].st = "established"}}
     \* once everything was delivered (or skipped) and read, the advertised window is the whole buffer again
     \cup {V("C11_FullWindowWhenRead", <<e, sn[e].arwnd, Cfg(e).buf>>) :
